@@ -699,13 +699,23 @@ fn parse_time(s: &str, converter: &Converter) -> Result<u32, ParseTimeError> {
     let r = parse_time_with_units(s, converter);
     // if any error, try to fall back to a full float parse
     if r.is_err() {
-        let minutes = s.parse::<f64>().map(|m| m.round() as u32);
-        if let Ok(minutes) = minutes {
-            return Ok(minutes);
+        if let Ok(minutes) = s.parse::<f64>() {
+            return round_minutes(minutes);
         }
     }
     // otherwise return the result whatever it was
     r
+}
+
+/// Rounds to whole minutes, rejecting what a `u32` can't hold instead of
+/// saturating: negative, too big and non finite values.
+fn round_minutes(minutes: f64) -> Result<u32, ParseTimeError> {
+    let rounded = minutes.round();
+    if rounded >= 0.0 && rounded <= u32::MAX as f64 {
+        Ok(rounded as u32)
+    } else {
+        Err(ParseTimeError::OutOfRange)
+    }
 }
 
 #[derive(Debug, thiserror::Error)]
@@ -720,6 +730,8 @@ pub(crate) enum ParseTimeError {
     ParseFloatError(#[from] ParseFloatError),
     #[error("An empty value is not valid")]
     Empty,
+    #[error("The value is not a valid number of minutes")]
+    OutOfRange,
 }
 
 fn parse_common_time_format(s: &str) -> Option<u32> {
@@ -738,12 +750,12 @@ fn parse_common_time_format(s: &str) -> Option<u32> {
         match it.next() {
             Some(s) if s.ends_with(H_SEP) && !hours_found => {
                 let hours = &s[..s.len() - H_SEP.len_utf8()].parse::<u32>().ok()?;
-                total_minutes += hours * 60;
+                total_minutes = total_minutes.checked_add(hours.checked_mul(60)?)?;
                 hours_found = true;
             }
             Some(s) if s.ends_with(M_SEP) => {
                 let minutes = &s[..s.len() - M_SEP.len_utf8()].parse::<u32>().ok()?;
-                total_minutes += minutes;
+                total_minutes = total_minutes.checked_add(*minutes)?;
                 break;
             }
             None => break,
@@ -781,7 +793,7 @@ fn parse_time_with_units(s: &str, converter: &Converter) -> Result<u32, ParseTim
         let number = number.parse::<f64>()?;
         total += to_minutes(number, unit)?;
     }
-    Ok(total.round() as u32)
+    round_minutes(total)
 }
 
 fn dynamic_time_units(
